@@ -18,7 +18,8 @@ static int ca_elementAt(KSI_LIST(KSI_HashChainLink) *l, size_t pos, KSI_HashChai
 	*o = &g_ca_link[pos]; return KSI_OK;
 }
 int KSI_checkHashAlgorithmAt(KSI_HashAlgorithm algo_id, time_t used_at) {
-	__CPROVER_assert(used_at == (time_t)vr_u64(g_vr_cal.publicationTime), "the algorithm is judged at the calendar chain's publication time");
+	/* a time beyond the range of time_t is "later than everything" (saturated), never negative */
+	__CPROVER_assert(used_at == (vr_u64(g_vr_cal.publicationTime) > 0x7fffffffffffffffULL ? (time_t)0x7fffffffffffffffLL : (time_t)vr_u64(g_vr_cal.publicationTime)), "the algorithm is judged at the calendar chain's publication time");
 	__CPROVER_assert(algo_id >= 0 && algo_id < 4, "algorithm id of a link of this world");
 	return g_ca_status[algo_id] == 0 ? KSI_OK : g_ca_status[algo_id] == 1 ? KSI_HASH_ALGORITHM_DEPRECATED : g_ca_status[algo_id] == 2 ? KSI_HASH_ALGORITHM_OBSOLETE : KSI_UNKNOWN_HASH_ALGORITHM_ID;
 }
